@@ -7,7 +7,7 @@ from collections import deque
 from typing import Final
 
 from ..base_protocol import BaseProtocol
-from ..compression_utils import TooManyMembersError, ZLibDecompressor
+from ..compression_utils import TooManyMembersError, ZLibBackend, ZLibDecompressor
 from ..helpers import _EXC_SENTINEL, set_exception
 from ..streams import EofStream
 from .helpers import UNPACK_CLOSE_CODE, UNPACK_LEN3, websocket_mask
@@ -279,6 +279,11 @@ class WebSocketReader:
                     raise WebSocketError(
                         WSCloseCode.MESSAGE_TOO_BIG,
                         "Compressed message has too many deflate members",
+                    ) from exc
+                except ZLibBackend.error as exc:
+                    raise WebSocketError(
+                        WSCloseCode.PROTOCOL_ERROR,
+                        "Invalid compressed message payload",
                     ) from exc
                 if self._max_msg_size and len(payload_merged) > self._max_msg_size:
                     raise WebSocketError(
